@@ -515,6 +515,57 @@ TVerdict(op, meth, A, B, p, Rs) ==
             ELSE IF Len(want) # Len(Rs.v) THEN "value"
             ELSE IF \A i \in DOMAIN want : Rs.v[i] = want[i].v THEN "ok" ELSE "value"
 
+(* ------------------------------------------------------------------------ *)
+(* powers with a general rational exponent ("powerx"): exponent space        *)
+(* ------------------------------------------------------------------------ *)
+\* x ** p for an exponent p = n/d that is NOT a ratio of small integers (1.4142 = 7071/5000, 0.3333, 1/7 ...) has
+\* irrational numbers and a unit whose exponents do not fit the x6 grid.  Such a step is judged in exponent space:
+\* a positive number whose numerator and denominator factor over <<2,3,5,127>> IS its vector of prime exponents, a scale
+\* is one already, and raising to p multiplies every exponent by p - all exact rationals.  The observed result
+\* (harness projection, register kind "l") carries
+\*   ue : exponent of every atom in the result unit (NA rationals)        dq : result.units.dimensions (NG rationals)
+\*   sv : prime exponents of result.units.base_value (NP rationals)       lv : prime exponents of each number
+\*   si : prime exponents of each SI magnitude result.d * result.units.base_value   (the property's observation point)
+\* floats are matched by the harness to the vectors the specification expects (else the sentinel <<0,0>>).
+RECURSIVE PExp(_, _)
+PExp(n, q) == IF n % q = 0 THEN 1 + PExp(n \div q, q) ELSE 0
+RECURSIVE PStrip(_, _)
+PStrip(n, q) == IF n % q = 0 THEN PStrip(n \div q, q) ELSE n
+FactInt(n) == n > 0 /\ PStrip(PStrip(PStrip(PStrip(n, 2), 3), 5), 127) = 1
+FactOk(x) == FactInt(x[1]) /\ FactInt(x[2])
+FactV(x) == [j \in 1..NP |-> PExp(x[1], Primes[j]) - PExp(x[2], Primes[j])]
+\* (n/6) * p as a normalised rational; vectors given x6
+QInt6(n, p) == Norm(n * p[1], 6 * p[2])
+QVec6(v, p) == [j \in DOMAIN v |-> QInt6(v[j], p)]
+QVecOk(v, p) == p[2] > 0 /\ p[2] <= 50000000 /\ \A j \in DOMAIN v : MulOk(v[j], p[1])
+\* SI magnitude of element i of a register: prime exponents x6
+SIx6(A, i) == LET f == FactV(A.v[i]) IN [j \in 1..NP |-> 6 * f[j] + A.sv[j]]
+LVx6(A, i) == LET f == FactV(A.v[i]) IN [j \in 1..NP |-> 6 * f[j]]
+\* inside the claim: a quantity with positive real numbers (a non-integral power of a negative number is not a real
+\* number), no zero point; decidable in exponent space when every number factors over the primes
+InClaimX(A, p) == A.k = "q" /\ ~A.cx /\ ~HasOffset(A.u)
+DecidableX(A, p) == /\ \A i \in DOMAIN A.v : FactOk(A.v[i])
+                    /\ QVecOk(A.u, p) /\ QVecOk(A.sv, p) /\ QVecOk(DV(A.u), p)
+                    /\ \A i \in DOMAIN A.v : QVecOk(SIx6(A, i), p) /\ QVecOk(LVx6(A, i), p)
+\* property side: dimension by dimensional analysis, SI magnitude = (SI magnitude of the operand) ** p
+RefX(A, p) == [dq |-> QVec6(DV(A.u), p), si |-> [i \in DOMAIN A.v |-> QVec6(SIx6(A, i), p)]]
+PVerdictX(A, p, Rs) ==
+  LET ref == RefX(A, p) IN
+  IF Rs.dq # ref.dq THEN "dim"
+  ELSE IF Len(Rs.si) # Len(ref.si) THEN "value"
+  ELSE IF \A i \in DOMAIN ref.si : Rs.si[i] = ref.si[i] THEN "ok" ELSE "value"
+\* implementation side (unit_object.py Unit.__pow__, array.py power branch): the float exponent is rationalised by
+\* Rational(str(p)).limit_denominator() - the identity for denominators up to 10^6 -, the unit expression, its base_value
+\* and its dimensions are raised to that rational, the numbers to the float
+ImplX(A, p) == [ue |-> QVec6(A.u, p), sv |-> QVec6(A.sv, p), lv |-> [i \in DOMAIN A.v |-> QVec6(LVx6(A, i), p)]]
+TVerdictX(A, p, Rs) ==
+  LET r == ImplX(A, p) IN
+  IF p[2] > 1000000 THEN "undecided"
+  ELSE IF Rs.bare \/ Rs.ue # r.ue THEN "unit"
+  ELSE IF Rs.sv # r.sv THEN "scale"
+  ELSE IF Len(Rs.lv) # Len(r.lv) THEN "value"
+  ELSE IF \A i \in DOMAIN r.lv : Rs.lv[i] = r.lv[i] THEN "ok" ELSE "value"
+
 \* the transcription's own result (generator side): [ok, k, u, sv, rg, cx, v]
 ImplStep(op, meth, A, B, p) ==
   LET r == IF ImplBare(op) THEN [u |-> UOne, sv |-> SZero] ELSE ImplRes(op, meth, A, B, p)
